@@ -706,6 +706,96 @@ def gen_numeric(rng):
     return {"k": "score", "parts": [d], "struct": [0]}
 
 
+def gen_deep(rng):
+    """SEVEN OR MORE ranges of one kind (slurs / tuplets / wedges / dashes) open at the same moment on a plain one-voice line
+    (nested: range i from note i to note N-1-i, or staggered: range i from note i to note i+depth): the round trip must
+    return every range with its own start and end (a range number handed out twice pairs a stop with the wrong start)"""
+    depth = rng.choice([7, 7, 8, 9, 10])
+    kind = rng.choice(["slurs", "tuplets", "wedge", "dashes"])
+    nested = rng.random() < 0.5
+    N = 2 * depth + rng.choice([0, 1, 2])
+    q = rng.choice([1, 2, 4])
+    d = {"id": "P1", "name": "Deep", "abbr": None, "divs": q, "qd": [], "ts": [[0, 4, 4]], "ks": [[0, 0, None]],
+         "clefs": [[0, 1, "G", 2, 0]], "measures": [], "notes": [], "slurs": [], "tuplets": [], "extras": [], "pages": True,
+         "family": "deep-" + kind}
+    for k in range(N):
+        d["notes"].append({"id": "n%02d" % k, "t": k * q, "dur": q, "kind": "note", "step": STEPS[k % 7], "alter": None, "oct": 4,
+                           "voice": 1, "staff": 1})
+    for m in range((N + 3) // 4):
+        d["measures"].append([4 * m * q, min(4 * (m + 1), N) * q, m + 1, str(m + 1)])
+    for i in range(depth):
+        a, b = (i, N - 1 - i) if nested else (i, i + depth)
+        if kind == "slurs":
+            d["slurs"].append(["n%02d" % a, "n%02d" % b])
+        elif kind == "tuplets":
+            d["tuplets"].append(["n%02d" % a, "n%02d" % b, 3, 2, "quarter", "quarter"])
+        elif kind == "wedge":
+            inc = rng.random() < 0.5
+            d["extras"].append(["IncreasingLoudnessDirection" if inc else "DecreasingLoudnessDirection", a * q, (b + 1) * q,
+                                {"text": "crescendo" if inc else "diminuendo", "wedge": True, "staff": 1}])
+        else:
+            d["extras"].append(["@parsed", a * q, (b + 1) * q, {"words": rng.choice(DASH_WORDS)}])
+    return {"k": "score", "parts": [d], "struct": [0]}
+
+
+def gen_history(rng):
+    """a HISTORY: another file is loaded and its notes' mutable attributes are edited IN PLACE before the score under test is
+    saved and loaded (state shared between import results must not leak into a later, unrelated load)"""
+    a = gen_score(rng) if rng.random() < 0.6 else gen_deep(rng)
+    b = None if rng.random() < 0.5 else (gen_score(rng) if rng.random() < 0.7 else gen_deep(rng))
+    return {"k": "history", "a": a, "b": b, "edit": rng.randrange(4)}
+
+
+def eval_history(desc):
+    """load(xB) before and after [load(xA); edit every loaded note's symbolic_duration dict / articulation list in place]
+    must be the same score and re-save to the same bytes: the second score comes back as a fresh process returns it"""
+    import copy
+    import partitura
+
+    ev = Eval()
+    try:
+        xa = partitura.save_musicxml(build_score(desc["a"]))
+        xb = partitura.save_musicxml(build_score(desc["b"])) if desc.get("b") else xa
+        ref = copy.deepcopy(abstract_score(_load(xb)))
+        refbytes = partitura.save_musicxml(_load(xb))
+        la = _load(xa)
+    except Exception as e:
+        ev.info["history_skipped"] = "%s: %s" % (type(e).__name__, e)
+        return ev
+    mode = desc.get("edit", 0)
+    nedits = 0
+    for part in la.parts:
+        for n in part.iter_all(__import__("partitura.score", fromlist=["x"]).GenericNote, include_subclasses=True):
+            sd = n.symbolic_duration
+            if isinstance(sd, dict):
+                if mode in (0, 3):
+                    sd["dots"] = (sd.get("dots") or 0) + 1
+                if mode in (1, 3):
+                    sd["type"] = "long" if sd.get("type") != "long" else "breve"
+                if mode in (2, 3):
+                    sd["actual_notes"], sd["normal_notes"] = 7, 4
+                nedits += 1
+            if isinstance(getattr(n, "articulations", None), list):
+                n.articulations.append("staccato")
+            if isinstance(getattr(n, "technical", None), list):
+                n.technical.clear()
+    ev.info["history_edits"] = nedits
+    try:
+        got = abstract_score(_load(xb))
+        gotbytes = partitura.save_musicxml(_load(xb))
+    except Exception as e:
+        ev.oracle.append("history: loading/saving the second score raised %s: %s after a loaded note of another file was edited in place"
+                         % (type(e).__name__, e))
+        return ev
+    df = diff_abstract(ref, got)
+    if df:
+        ev.oracle.append("history/shared-state: load(x) after an in-place edit of ANOTHER loaded score's notes differs from load(x) before: %s" % _short(df))
+    elif gotbytes != refbytes:
+        ev.oracle.append("history/shared-state: save(load(x)) gives other bytes after an in-place edit of another loaded score's notes")
+    ev.key = "history:%d:%s:%d" % (mode, "same" if not desc.get("b") else "other", min(nedits, 40))
+    return ev
+
+
 def gen_score(rng, big=False):
     np_ = rng.choice([1, 1, 2, 3, 3, 4])
     parts = [gen_part(rng, "P%d" % (i + 1), big) for i in range(np_)]
@@ -2281,6 +2371,10 @@ def cases(rng, tier):
         yield gen_numeric(rng)
     for i in range({"quick": 150, "thorough": 6000, "search": 300}.get(tier, 150)):
         yield gen_elems(rng)
+    for i in range({"quick": 40, "thorough": 800, "search": 120}.get(tier, 40)):
+        yield gen_deep(rng)
+    for i in range({"quick": 30, "thorough": 600, "search": 90}.get(tier, 30)):
+        yield gen_history(rng)
     for i in range(n):
         yield gen_score(rng, big=(i % 5 == 0))
 
@@ -2345,6 +2439,8 @@ def evaluate(desc):
         return eval_fixture(desc)
     if desc["k"] == "elems":
         return eval_elems(desc)
+    if desc["k"] == "history":
+        return eval_history(desc)
     return eval_score(desc)
 
 
